@@ -90,9 +90,17 @@ def gen_histories(chk):
             plan = [(0, 3)]
         else:
             plan = [(1, 2), (0, 3 if quick else 4)] if ci else [(1, 2 if quick else 3), (0, 4)]
+        inits_all = ([[1, 2], [3], [4, 5, 6]], [[], [7]], [[1], [2], [3]])
+        jobs = []
         for level, depth in plan:
+            if quick and depth == 4:      # depth 4 from the first initial sequence, depth 3 from the others
+                jobs.append((level, 4, inits_all[:1]))
+                jobs.append((level, 3, inits_all[1:]))
+            else:
+                jobs.append((level, depth, inits_all + (([[], []],) if level else ())))
+        for level, depth, inits in jobs:
             g = L.Gen(shape, kind, sizes, tiny)
-            for init_els in ([[1, 2], [3], [4, 5, 6]], [[], [7]]) + (([[], []],) if level else ()):
+            for init_els in inits:
                 g.counter = 10
                 init = f'new:{tiny}:{g.bpr()}:1:{L.enc_elems(init_els)}'
                 for toks in L.exhaustive(g, init, depth, level):
@@ -109,8 +117,20 @@ def gen_histories(chk):
     return hists, n_core
 
 
+def gen_tract(chk):
+    """Tractogram layer (harness level only): (tag, toks)"""
+    out = [('tract:core', t) for t in L.tract_core()]
+    rng = chk.rng
+    for _ in range(chk.n(500, 8000)):
+        out.append(('tract:rand', L.tract_random(rng, rng.choice([5, 10, 20]))))
+    return out
+
+
 # ------------------------------------------------------------------ main
 KNOWN_TEXT = {
+    'S-C15e': 'Tractogram() + t (left operand without data_per_point / data_per_streamline keys): '
+              'PerArrayDict.extend stores the right operand\'s own arrays, so assigning through the sum\'s '
+              'per-point data alters t',
     'S-C15d': 'assignment through a view no longer reaches the sequence it was taken from once either '
               'of them has been grown (growth re-allocates / detaches: the two stop sharing _data)',
 }
@@ -263,7 +283,12 @@ def run(chk: Check):
                 'sequences / itself, int / slice / list / mask indexing and assignment with scalars, rows and sequences, '
                 'in-place and out-of-place arithmetic, comparisons, copy, concatenate, view constructor, dropping '
                 'objects, out-of-range and malformed indices); a history is distinct by its configuration and token list; '
-                'every history is non-trivial (at least one constructor and, for the core, 2-4 further operations)')
+                'every history is non-trivial (at least one constructor and, for the core, 2-4 further operations); list '
+                'indices WITH REPEATS whose rows add up to the rows of the whole sequence are part of both alphabets; '
+                'Tractogram layer (direct predicate only): source x {t + Tractogram(), t + t[0:0], t + t[[]], t + other, '
+                't + t, t.copy(), t[slice/list/mask], sums of views, t[0:0] + t} x {no growth, += empty / empty slice / '
+                'non-empty, growth of the source} x {element / slice assignment, in-place arithmetic on streamlines and '
+                'data_per_point of the derived and of the source tractogram} plus random histories of depth 5-20')
     chk.assumptions = [
         'all sequence objects created in a history stay referenced until dropped explicitly; element arrays returned by '
         'integer indexing are never held across a step (a held element keeps a reference to _data and changes what '
@@ -289,6 +314,27 @@ def run(chk: Check):
     model = common.run_model_parallel(PROP, lines)
     compare(chk, hists, impl, crashed, model)
     chk.exhaustive = False
+    # ---- Tractogram layer: direct predicate only (no Coq model of Tractogram)
+    thists = gen_tract(chk)
+    timpl, tcrashed = run_children([(f't{n}', 'T', t) for n, (_, t) in enumerate(thists)])
+    nv = 0
+    for n, (tag, toks) in enumerate(thists):
+        hid = f't{n}'
+        case = {'header': 'T', 'ops': toks}
+        chk.count(key=('T', tuple(toks)), tag=tag, sample=case if n == 7 else None)
+        if hid in tcrashed:
+            chk.violation('property_violation', case=case, predicate='child process died: ' + tcrashed[hid])
+            continue
+        echo, steps, _ = timpl[hid]
+        fails, known = L.check_thistory(echo, steps)
+        for fid in known:
+            chk.known(fid, KNOWN_TEXT[fid])
+            chk.tagc('known:' + fid, known[fid])
+        if fails and nv < 20:
+            nv += 1
+            cat, k, detail = fails[0]
+            chk.violation('property_violation', case=case, impl_output=steps[k] if k < len(steps) else None,
+                          predicate=f'tractogram layer: {cat} fails at step {k}: {detail}', theorem='C15_' + cat)
     # ---- cross-check extraction + driver against evaluation inside coqc
     sample = [h for h, _, _, _ in hists if h in impl][::max(1, len(hists) // 40)][:40]
     raw = run_model(PROP, [f'{h} rawhist ' + ' '.join(impl[h][0]) for h in sample])
@@ -345,6 +391,12 @@ def replay(chk, obj):
     echo, steps, lays = impl['r0']
     for t, s in zip(echo, steps):
         print(f'{t:40s} -> {s}')
+    if c['header'] == 'T':
+        fails, known = L.check_thistory(echo, steps)
+        for f in fails:
+            print('FAIL', f)
+        print('property fails on this history' if fails else 'property holds on this history')
+        return 1 if fails else 0
     fails, known = L.check_history(echo, steps, lays)
     bad = bool(fails)
     if obj.get('kind') == 'correspondence':
